@@ -630,6 +630,13 @@ class DataFileManager:
             column = table.column(field_name)
 
             try:
+                # Arrow's min/max skip NaN, so the bounds of a float column that
+                # holds a NaN do not cover that row - but NaN satisfies "!=" (and
+                # is_in matches NaN to NaN), so pruning on such bounds drops rows
+                # the filter would return. No bounds for this file: no pruning.
+                if pa.types.is_floating(column.type) and pc.any(pc.is_nan(column)).as_py():
+                    continue
+
                 # Compute min/max using PyArrow compute
                 min_scalar = pc.min(column)
                 max_scalar = pc.max(column)
